@@ -76,7 +76,7 @@ def batch(harness, n, gt, exs, N, script, mode='plain', bmax=3, nlo=None, max_pa
     if cases == 0:
         return []
     if N == 0:
-        steps = cases * 35 + evals * 22
+        steps = cases * 40 + evals * ((15 + 10 * n) if c31 else 22)
         cps = 0
     else:
         heavy = any(c in exs for c in '345')
@@ -136,9 +136,9 @@ def c30_runs(tier):
     if quick:
         runs += batch('c30_batch', 3, 0, '1', 2, 0)
         runs += batch('c30_batch', 3, 0, '3', 2, 0)
-        runs += batch('c30_batch', 3, 0, '3', 1, 0, max_parts=1)
+        runs += batch('c30_batch', 3, 0, '3', 1, 0, o=3, max_parts=1)
         runs += batch('c30_batch', 3, 1, '3', 2, 0, o=0, max_parts=1)
-        runs += batch('c30_batch', 3, 0, '3', 2, 1, o=0, max_parts=2)
+        runs += batch('c30_batch', 3, 0, '3', 2, 1, o=0, max_parts=1)
         runs += batch('c30_batch', 3, 0, '1', 2, 2, o=0, max_parts=1)
     else:
         for N in (1, 2):
@@ -168,17 +168,20 @@ def c30_runs(tier):
     else:
         for shape in ('diamond', 'chain', 'fork', 'join', 'two_components'):
             for ex in (1, 3):
-                for N, park in ((2, 1), (1, 1), (1, 0)):
-                    runs.append(explore('c30', shape, ex, N, 1, park=park, budget=60))
+                runs.append(explore('c30', shape, ex, 2, 1, park=1, budget=90))
+                if shape in ('diamond', 'join', 'chain'):
+                    runs.append(explore('c30', shape, ex, 1, 1, park=1, budget=60))
+                if ex == 3 or shape == 'diamond':
+                    runs.append(explore('c30', shape, ex, 1, 1, park=0, budget=60))
         for shape, ex in (('diamond', 2), ('join', 2), ('fork', 4), ('diamond', 4), ('chain', 5), ('join', 5)):
             runs.append(explore('c30', shape, ex, 2, 1, budget=60))
         for shape, b, ex in (('join', 6, 3), ('chain', 4, 1), ('fork', 3, 3)):
             runs.append(explore('c30', shape, ex, 2, 1, gt=1, b=b, budget=60))
         # subgraph clear + rebuild, grow, then a concurrent evaluation
-        runs.append(explore('c30', 'diamond', 3, 2, 1, s=6, script=1, k=1, pre=1, re=1, budget=90))
-        runs.append(explore('c30', 'diamond', 3, 2, 1, s=9, script=2, late=12, re=1, budget=90))
-        runs.append(explore('c30', 'chain', 3, 1, 2, budget=150))
-        runs.append(explore('c30', 'join', 1, 1, 2, budget=150))
+        runs.append(explore('c30', 'diamond', 3, 1, 1, s=6, script=1, k=1, pre=1, re=1, budget=120))
+        runs.append(explore('c30', 'join', 3, 2, 1, s=4, script=2, late=4, re=1, budget=120))
+        for shape, ex in (('chain', 3), ('fork', 3), ('join', 3), ('join', 1)):
+            runs.append(explore('c30', shape, ex, 1, 2, budget=150))
     # --- sanitizer legs (node bodies read plain data written by their predecessors: a missing happens-before edge
     #     between "predecessor finished" and "dependent started" is a TSan report)
     runs.append(explore('c30', 'join', 3, 1, 1, mode='tsan', budget=60))
@@ -191,7 +194,7 @@ def c30_runs(tier):
     return runs
 
 
-reg('C30', level='model_checking', runs=c30_runs, quick_budget_s=360, thorough_budget_s=2400,
+reg('C30', level='model_checking', runs=c30_runs, quick_budget_s=420, thorough_budget_s=2400,
     technique='real Graph/BiPropGraph objects built through the public API for every small DAG and build script, evaluated by the real executors under the dmc scheduler; run log (start/finish stamps, run counts) checked against the DAG; bounded-exhaustive schedule exploration of the concurrent executors on small DAGs',
     level_text='Inputs: every DAG on n<=3 nodes (quick; also n=4, and n=5 on 4 subgraph splits, thorough) in a fixed topological labelling x every split of the nodes over <=2 subgraphs x node insertion order asc/desc x dependency declaration order asc/desc x build scripts {build; build[->evaluate]->clear (subgraph k | graph.clear | clearSubgraphs)->rebuild->evaluate after setAllNodesIncomplete or ForwardPropagator; build part->evaluate->add nodes->evaluate} x Graph and BiPropGraph (every set of biprop pairs, n<=3; n=4 thorough) x {SingleThreadExecutor, ParallelForExecutor on TaskSet and on ConcurrentTaskSet, ConcurrentTaskSetExecutor (wait, wait=false, load factor 0)}: complete on a 0-thread pool, large samples on pools of 1-2 workers, one canonical schedule each (node bodies yield so that workers take part). Schedules: every interleaving with <=1 deviation (<=2 for the 3-node shapes on one worker, thorough) of the concurrent executors on diamond/chain/fork/join/two components, pools of 1-2 workers, parked or still starting. Oracle: each incomplete node runs exactly once and starts only after each of its incomplete predecessors has finished (and sees its plain write), complete nodes are not run, every node complete afterwards, node count and numPredecessors() exact after clear.',
     level_note='First evaluation is prepared with setAllNodesIncomplete (as every test, example and docs page does; the graph.h header comment omits it) or with ForwardPropagator. SC interleavings; TSan and ASan legs on small shapes.',
@@ -238,7 +241,6 @@ def c31_runs(tier):
     # a few explored schedules: partial evaluation where a re-run node has complete dependents (BiProp) / predecessors
     runs.append(explore('c31', 'join', 3, 1, 1, gt=1, b=4, mark=4, fin=0, budget=60))
     if not quick:
-        runs.append(explore('c31', 'join', 3, 2, 1, gt=1, b=4, mark=4, fin=0, budget=120))
         runs.append(explore('c31', 'diamond', 3, 2, 1, mark=2, fin=0, budget=120))
         runs.append(explore('c31', 'fork', 1, 2, 1, gt=1, b=1, mark=2, fin=0, budget=120))
     runs.append(explore('c31', 'join', 3, 1, 1, gt=1, b=4, mark=4, fin=0, mode='tsan', budget=90))
